@@ -130,7 +130,8 @@ func (k vkeyT) term() string {
 	}
 }
 
-func str(s string) string { return fmt.Sprintf("%q%%string", s) }
+// str prints a Coq string literal: a double quote is doubled, nothing else is escaped
+func str(s string) string { return "\"" + strings.ReplaceAll(s, "\"", "\"\"") + "\"%string" }
 
 // ---------------- materialisation ----------------
 type execEvent struct {
